@@ -14,7 +14,7 @@ class LinCombBool:
         """
         if not isinstance(lc, LinComb):
             raise RuntimeError("Wrong type for LinCombBool")
-        if not LinCombBool.is_boolean_value(lc.value):
+        if not pysnark.runtime.ignore_errors() and not LinCombBool.is_boolean_value(lc.value):
             raise ValueError("LinCombBool can only take Boolean values")
         
         # Add boolean constraint to circuit
@@ -50,8 +50,6 @@ class LinCombBool:
         if isinstance(val,LinCombBool):
             return val
         elif isinstance(val,LinComb):
-            if not LinCombBool.is_boolean_value(val.value):
-                raise ValueError("LinCombBool can only take Boolean values")
             return LinCombBool(val)
         elif isinstance(val, int):
             if not LinCombBool.is_boolean_value(val):
